@@ -1,5 +1,6 @@
 """Writing IR-code into a textual format."""
 
+from binascii import hexlify
 from .verify import verify_module
 from .. import ir
 
@@ -43,11 +44,27 @@ class Writer:
 
         for variable in module.variables:
             self._print(0, "")
-            self._print(0, str(variable))
+            self._print(0, self.variable_text(variable))
 
         for function in module.functions:
             self._print(0, "")
             self.write_function(function)
+
+    @staticmethod
+    def variable_text(variable):
+        """Textual form of a variable, including its initial value."""
+        text = str(variable)
+        if variable.value is not None:
+            parts = []
+            for part in variable.value:
+                if isinstance(part, bytes):
+                    parts.append("'" + hexlify(part).decode("ascii") + "'")
+                elif isinstance(part, tuple) and part[0] is ir.ptr:
+                    parts.append("&" + part[1])
+                else:  # pragma: no cover
+                    raise NotImplementedError(str(part))
+            text += " = " + ", ".join(parts)
+        return text.rstrip()
 
     def write_function(self, function):
         self._print(0, f"{function} {{")
